@@ -52,6 +52,9 @@ CHECKS = {
     'C16': dict(tech=SYMX, ref='3/C16',
                 text='(missing) which specification items are supplied is a vector of symbolic booleans (rank 1: all 64 masks) / an enumerated list (rank 2: all subsets of <=2 of 14 items, <=3 thorough): check(), createPRISM() and solve() raise ValueError, from inside check(), with no PRISM object and no root-finder call, iff something is missing. (wiring) with every shipped potential/closure class and Gaussian/SingleSite/NoIntra/InterMolecular/FromArray omegas and all parameters symbolic the solver proves closure.potential = u_spec(r)/kT, closure.sigma=(da+db)/2, potential.sigma explicit-or-mean, omega = omega_spec(k)*rho_site, per-pair objects distinct (also for list-assigned tables and kT assigned later). (isolation) the System (identity and value of every table entry, potential sigmas, domain arrays) is unchanged by createPRISM, cost and solve(stub); no array is shared; after editing every System field the PRISM object\'s wiring and cost(x) are unchanged. (sweep) a System edited field by field to theta2 gives the same wiring and the same cost(x) as a fresh System(theta2).',
                 note='Root finder stubbed (C01 contract); equal wiring + equal x gives equal results assumes scipy is deterministic.'),
+    'C11': dict(tech=SYMX, ref='3/C11',
+                text='Real Gaussian and FreelyJointedChain calculate() with symbolic k (2-element array), sigma/l and N=2..12 (32 thorough): the solver proves the closed form equals (1/N) Sum_ij E^|i-j| as a polynomial identity in the Ackermannised E (whose value is N at E=1 and 1 at E=0), 1-E != 0 for k>0 (finite), omega <= N, omega>0 (Gaussian), and the value at k0 mentions no other k; GaussianRing N=2..8 equals its pair sum; SingleSite=1, NoIntra/InterMolecular=0; DiscreteKoyama: ValueError <=> l<=sigma/2 or lp<4l^3/(4l^2-sigma^2) for symbolic sigma,l,lp, constructor accepts valid parameters, calculate(k)=1+(2/N)Sum(N-n)kappa_n(k) for symbolic k (N=3..8, 3 parameter sets); NFJC: evaluates, and no denominator met in the real calculate on its 999-node quadrature can vanish for k>0.',
+                note='Not decided: N>32, the numerical value of the NFJC quadrature, Koyama moment formulas, floating-point cancellation of the closed forms at tiny k (Real model), the k->0/inf limits themselves (continuity of the proven polynomial identity).'),
 }
 
 NOT_YET = {}
